@@ -7,7 +7,9 @@ NOTE = ("Trusted: Lean 4.33 kernel (axioms propext/Classical.choice/Quot.sound o
         "native_decide); harness/translate.py (T1: tables, regexes via CPython's parser, template lists) and harness/pyfun2lean.py with "
         "lean/GapicModel/PyRt.lean (T1-f: small pure functions of /repo translated to Lean from the current source on every run; bridge "
         "lemmas Generated = Pinned by rfl; the run-time library and every translation are compared with CPython / the real function on "
-        "every run); the correspondence harness (descriptor builder standing in for protoc, "
+        "every run); harness/srcpin.py (T1-s: the anchored Python functions the hand-written model mirrors are digested on every run and "
+        "compared with the digests recorded when the model was validated; a changed function is a broken obligation); "
+        "the correspondence harness (descriptor builder standing in for protoc, "
         "loopback servers, canonicalisation, oracles). The rest of the model is hand-written (link theorems `*_is_translated` tie it to the "
         "translated functions where they exist): its agreement with /repo is as strong as "
         "the bridge lemmas + T2/T3 differential runs on the inputs of the run. Runtime shell (CPython, re, protobuf, grpcio, "
